@@ -104,6 +104,22 @@ type Table struct {
 	Cons         []string // table constraints (without the leading comma)
 	WithoutRowid bool
 	Lead         string // text between CREATE and TABLE / comments, usually ""
+	// Comment: an SQL comment written after element CommentAt of the
+	// parenthesised list (SQLite stores the statement text as typed)
+	Comment   string `json:",omitempty"`
+	CommentAt int    `json:",omitempty"`
+}
+
+var comments = []string{"--1\n", "-- a note\n", "/* x */", "/* - 1 */", "--\n", "/**/", "/* ' */", "-- \"q\n", "/* a, b */", "--,\n"}
+
+// withComment writes the comment after element at (mod the number of elements).
+func withComment(parts []string, comment string, at int) []string {
+	if comment == "" || len(parts) == 0 {
+		return parts
+	}
+	out := append([]string{}, parts...)
+	out[at%len(out)] += " " + comment
+	return out
 }
 
 func (tb Table) SQL() string {
@@ -112,6 +128,7 @@ func (tb Table) SQL() string {
 		parts = append(parts, c.SQL())
 	}
 	parts = append(parts, tb.Cons...)
+	parts = withComment(parts, tb.Comment, tb.CommentAt)
 	s := "CREATE TABLE " + tb.Ident.SQL + " (" + strings.Join(parts, ", ") + ")"
 	if tb.WithoutRowid {
 		s += " WITHOUT ROWID"
@@ -356,6 +373,10 @@ func GenTable(t *rapid.T, name Ident, o Opts) Table {
 	if len(tb.Cons) > 1 && rapid.Bool().Draw(t, "tcshuffle") {
 		tb.Cons = rapid.Permutation(tb.Cons).Draw(t, "tcorder")
 	}
+	if !o.Conservative && rapid.IntRange(0, 11).Draw(t, "tcomment") == 0 {
+		tb.Comment = rapid.SampledFrom(comments).Draw(t, "tcommenttext")
+		tb.CommentAt = rapid.IntRange(0, 8).Draw(t, "tcommentat")
+	}
 	return tb
 }
 
@@ -368,6 +389,9 @@ type Index struct {
 	Exprs  []string // the same without COLLATE / ASC / DESC (for ORDER BY in the oracle)
 	Plain  []bool   // the indexed column is a plain column reference
 	Where  string   // "" = none
+	// Comment: an SQL comment after indexed column CommentAt
+	Comment   string `json:",omitempty"`
+	CommentAt int    `json:",omitempty"`
 }
 
 func (ix Index) SQL() string {
@@ -375,7 +399,7 @@ func (ix Index) SQL() string {
 	if ix.Unique {
 		s += "UNIQUE "
 	}
-	s += "INDEX " + ix.Ident.SQL + " ON " + ix.Table.SQL + " (" + strings.Join(ix.Cols, ", ") + ")"
+	s += "INDEX " + ix.Ident.SQL + " ON " + ix.Table.SQL + " (" + strings.Join(withComment(ix.Cols, ix.Comment, ix.CommentAt), ", ") + ")"
 	if ix.Where != "" {
 		s += " WHERE " + ix.Where
 	}
@@ -419,6 +443,10 @@ func GenIndex(t *rapid.T, name Ident, tb Table, unique, exprs, partial bool) Ind
 	if partial && rapid.IntRange(0, 3).Draw(t, "ipartial") == 0 {
 		c := Ref(t, rapid.SampledFrom(ids).Draw(t, "wc"), "wc")
 		ix.Where = rapid.SampledFrom([]string{c + " > 0", c + " IS NOT NULL", c + " = 'lit'", c + " >= 10", c + " < 5", c + " <> 1", "abs(" + c + ") > 2", c + " > 0 AND " + c + " < 100"}).Draw(t, "where")
+	}
+	if rapid.IntRange(0, 9).Draw(t, "icomment") == 0 {
+		ix.Comment = rapid.SampledFrom(comments).Draw(t, "icommenttext")
+		ix.CommentAt = rapid.IntRange(0, 5).Draw(t, "icommentat")
 	}
 	return ix
 }
